@@ -421,6 +421,23 @@ class Gen:
         return w
       a.children = [ws(), s1, ws(), s2, ws()]
       self.classes.add("p-outlives-spans-white-space-only")
+    elif rng.random() < 0.06:
+      # an empty text node under xml:space=preserve at an edge of the paragraph, next to default-space text that begins / ends
+      # with white space: the empty node is no character, the neighbour is still the first / last text of the paragraph
+      a.space = None
+      e = AbsEl("Span", id=self.eid())
+      e.space = "preserve"
+      e.children = [AbsEl("Text", text="")]
+      t = AbsEl("Span", id=self.eid())
+      self.tok += 2
+      t.children = [AbsEl("Text", text=f"  k{self.tok - 1}   k{self.tok} \n")]
+      a.children = [e, t] if rng.random() < 0.5 else [t, e]
+      if rng.random() < 0.4:
+        e2 = AbsEl("Span", id=self.eid())
+        e2.space = "preserve"
+        e2.children = [AbsEl("Text", text="")]
+        a.children = [e, t, e2]
+      self.classes.add("empty-preserved-text-at-paragraph-edge")
     return a
 
   def div(self, depth=0):
